@@ -79,7 +79,7 @@ def all_nodes(t):
     return out
 
 
-def mutants(rng, a):
+def mutants(rng, a, cs=1):
     """-> list of (label, tree)"""
     M = [('identical', a.clone())]
     nodes = all_nodes(a)
@@ -236,6 +236,19 @@ def mutants(rng, a):
         m.kids.insert(rng.randrange(len(m.kids) + 1), n)
     with_edit('member-added', mem_add)
 
+    def mem_add_case_variant(ns):
+        # an extra member whose key differs from an existing key only by letter case (same or other value)
+        k = pick(ns, lambda q: q.key is not None and q.parent is not None and q.parent.kind == 'o' and q.key.swapcase() != q.key
+                 and all(c.key != q.key.swapcase() for c in q.parent.kids))
+        n = k.clone() if rng.random() < 0.6 else Node('t')
+        n.key, n.kconst = k.key.swapcase(), False
+        n.parent = k.parent
+        k.parent.kids.insert(rng.choice([0, len(k.parent.kids), rng.randrange(len(k.parent.kids) + 1)]), n)
+    # only for case-sensitive runs: under case folding the two keys are the same key, and C12 (like
+    # the library's documentation) speaks about objects whose keys are distinct under the comparison
+    for _ in range(2 if cs else 0):
+        with_edit('member-added-case-variant', mem_add_case_variant)
+
     def mem_remove(ns):
         m = pick(ns, lambda q: q.kind == 'o' and q.kids)
         del m.kids[rng.randrange(len(m.kids))]
@@ -345,7 +358,7 @@ def run_shard(shard_prop, bins, workdir, tier):
                 n.kind = 'w'
         ops = ['build 1 ' + to_tn(a)]
         exp = {}
-        ms = mutants(rng, a)
+        ms = mutants(rng, a, cs)
         for label, m in ms:
             idx = len(ops) + 1
             ops += ['build 2 ' + to_tn(m), 'cmpx 1 2 %d' % cs, 'del 2']
